@@ -92,6 +92,20 @@ def body_ref(c, ctx):
             ctx.close('ref_gradient', dphi, want, 1e-10, mag, i=i, **sig)
         if ctx.failures:
             return
+    # the reference vertices given as an INTEGER array (as in hand-written vertex rules [[0, 1]]): the same fields as for floats
+    if c['layout'] == 'shared' and not skeleton:
+        Xi = np.rint(np.asarray(e.refdom.p)).astype(np.int64)
+        for i in range(N):
+            a = build_element(d).lbasis(Xi.copy(), i)
+            b = build_element(d).lbasis(Xi.astype(float), i)
+            for fa, fb in zip(a, b):
+                if fa is None or fb is None:
+                    continue
+                fa, fb = np.asarray(fa, dtype=float), np.asarray(fb, dtype=float)
+                if fa.shape != fb.shape or not np.allclose(fa, fb, rtol=0, atol=1e-12 * (1 + np.abs(fb).max()), equal_nan=True):
+                    ctx.fail('ref_integer_points', f'function {i}: fields at integer-typed vertex coordinates differ from the fields at '
+                             f'the same coordinates as floats by {np.abs(fa - fb).max() if fa.shape == fb.shape else "shape"}', **sig)
+                    return
     # both point layouts give the same numbers
     if c['layout'] == 'percell':
         for i in range(N):
